@@ -119,6 +119,37 @@ Theorem C11_invariant : forall d0 h T,
 Proof. exact invariant_spelled_out. Qed.
 Print Assumptions C11_invariant.
 
+(* ---- the glue: routing/messages_handler.go in policy mode ----
+   Req id seq / Resp id seq status are processRequest / processResponse of a
+   transaction (id) of a sequence (seq); both look the accessor up under the
+   transaction id (Model.v, second part).  On the accessor a routing history
+   acts exactly as its projection (Req, Resp |-> Get id). *)
+Theorem C11_routing_refines_accessor : forall d0 h,
+  acc (rafter (rinit d0) h) = after (init d0) (map proj h).
+Proof. intros d0 h. exact (racc_after h (rinit d0)). Qed.
+Print Assumptions C11_routing_refines_accessor.
+
+(* The response of a transaction is dispatched with exactly the data that was
+   current when its request was seen (the data of the last successful update
+   before the request), whatever happens in between, for every sequence id on
+   either message, whenever the response comes within ttl of the request and
+   the clock is monotone; in particular the harness's marker observable (retry
+   action or not) is the one that data produces. *)
+Theorem C11_response_uses_request_version :
+  forall d0 pre id seq t0 mid seq' status t,
+  monotone (map proj (pre ++ Req id seq t0 :: mid ++ [Resp id seq' status t])) ->
+  lookup id (pins (acc (rafter (rinit d0) pre))) = None ->
+  t <= t0 + ttl ->
+  let s1 := rafter (rinit d0) pre in
+  let s3 := rafter (fst (rstep s1 (Req id seq t0))) mid in
+  let D := last_data d0 (map proj pre) in
+  snd (get (acc s3) id t)
+    = {| o_ver := cur (acc s1); o_data := Some D; o_fallback := false |} /\
+  snd (rstep s3 (Resp id seq' status t))
+    = snd (dispatch_resp (alive s3) id seq' status (Some D)).
+Proof. exact response_uses_request_version. Qed.
+Print Assumptions C11_response_uses_request_version.
+
 (* ---- non-vacuity: the hypotheses are met on concrete histories in which the
    interesting things happen ---- *)
 
@@ -181,4 +212,27 @@ Proof.
   { unfold monotone. vm_compute.
     repeat (constructor; try (intro H; discriminate H)). }
   vm_compute. split; reflexivity.
+Qed.
+
+(* routing: sequence 1 opens with transaction 1 under object 0 (retry state is
+   created); its retried attempt, transaction 2 of sequence 1, is first seen
+   under object 0; a reload installs object 1; the response of transaction 2
+   with status marker 0 still gets the retry action (processed with object 0),
+   and a transaction that starts after the reload is processed with object 1. *)
+Example C11_routing_applies :
+  let pre := [Req 1 1 0; Resp 1 1 (marker 0) 1] in
+  let mid := [Acc (Update 1 3)] in
+  monotone (map proj (pre ++ Req 2 1 2 :: mid ++ [Resp 2 1 (marker 0) 4])) /\
+  lookup 2 (pins (acc (rafter (rinit 0) pre))) = None /\
+  map snd (rtrace (rinit 0) (pre ++ Req 2 1 2 :: mid ++
+             [Resp 2 1 (marker 0) 4; Req 3 3 5; Resp 3 3 (marker 0) 6; Req 4 4 7; Resp 4 4 (marker 1) 8]))
+  = [[0]; [0]; [0]; [0; 1]; [0; 1]; [0; 1]; [0; 1]; [0; 1]; [0; 1]] /\
+  map fst (rtrace (rinit 0) (pre ++ Req 2 1 2 :: mid ++
+             [Resp 2 1 (marker 0) 4; Req 3 3 5; Resp 3 3 (marker 0) 6; Req 4 4 7; Resp 4 4 (marker 1) 8]))
+  = [0; 1; 0; 0; 1; 0; 0; 0; 1].
+Proof.
+  split.
+  { unfold monotone. vm_compute.
+    repeat (constructor; try (intro H; discriminate H)). }
+  vm_compute. repeat split.
 Qed.
